@@ -148,6 +148,18 @@ fn real_main() {
         i += 1;
     }
     rvh::run::install_quiet_panic_hook();
+    if prop == "SELFTEST" {
+        match rvh::esref::selftest::run() {
+            Ok((n, m)) => {
+                println!("oracle self-test ok: {} frozen V8 verdicts reproduced ({} matches)", n, m);
+                std::process::exit(0);
+            }
+            Err(e) => {
+                println!("ORACLE SELF-TEST FAILED: {}", e);
+                std::process::exit(2);
+            }
+        }
+    }
     let ctx = Ctx::new(&prop, tier, seed);
 
     if let Some(path) = jreplay {
